@@ -458,6 +458,8 @@ type Lemma struct {
 }
 
 type SpecFile struct {
+	Footprints map[string][]*Expr
+	Globals []GhostGlobal
 	Macros []Macro
 	Funcs  []*FuncSpec
 	Types  []*TypeSpec
@@ -465,7 +467,21 @@ type SpecFile struct {
 	Prel   []string // prelude names this file needs
 }
 
+type GhostGlobal struct {
+	Name string
+	Sort string
+}
+
+// annotationOnly: the contract carries no functional clauses (only tags such as exclusive /
+// unguarded / property), so call sites may still inline the body.
+func (f *FuncSpec) annotationOnly() bool {
+	return len(f.Requires) == 0 && len(f.Ensures) == 0 && !f.HasMod && len(f.TrustedEnsures) == 0 && len(f.TrustedModifies) == 0 &&
+		f.Trusted == "" && !f.Pure && len(f.Holds) == 0 && len(f.Acquires) == 0 && len(f.Releases) == 0 && len(f.Preserves) == 0 && len(f.Fresh) == 0
+}
+
 type SpecDB struct {
+	Footprints map[string]map[string][]*Expr // package path -> name -> targets
+	Globals []GhostGlobal
 	Macros map[string][]Macro // per package path
 	Funcs  map[string]*FuncSpec // key: pkgpath + "::" + Key   (ext: "ext::" + fn.String())
 	Types  map[string]*TypeSpec // pkgpath::Name
@@ -829,6 +845,31 @@ func parseSpecFile(path, pkgPath string, ext bool) (*SpecFile, error) {
 		case "prelude":
 			sf.Prel = append(sf.Prel, splitProps(rest)...)
 			continue
+		case "footprint":
+			// footprint NAME = target, target, ...
+			j := strings.Index(rest, "=")
+			if j < 0 {
+				return nil, fmt.Errorf("%s: footprint needs NAME = targets", pos)
+			}
+			es, err := parseExprList(rest[j+1:], pos)
+			if err != nil {
+				return nil, err
+			}
+			if sf.Footprints == nil {
+				sf.Footprints = map[string][]*Expr{}
+			}
+			sf.Footprints[strings.TrimSpace(rest[:j])] = es
+			continue
+		case "ghost":
+			if cur == nil && curT == nil {
+				w2, r2 := splitWord(rest)
+				if w2 != "global" {
+					return nil, fmt.Errorf("%s: expected 'ghost global $name Sort'", pos)
+				}
+				n, srt := splitWord(r2)
+				sf.Globals = append(sf.Globals, GhostGlobal{n, srt})
+				continue
+			}
 		case "define", "macro":
 			m, err := parseMacro(rest, pos)
 			if err != nil {
@@ -1127,7 +1168,7 @@ func parseFuncClause(f *FuncSpec, word, rest, pos string, ext bool) error {
 // loadSpecs reads all contract files: verif_contracts*.go under repo (package
 // path derived from the module path) and *.spec under extDir.
 func loadSpecs(repo, modPath, extDir string) (*SpecDB, error) {
-	db := &SpecDB{Funcs: map[string]*FuncSpec{}, Types: map[string]*TypeSpec{}, Macros: map[string][]Macro{}}
+	db := &SpecDB{Funcs: map[string]*FuncSpec{}, Types: map[string]*TypeSpec{}, Macros: map[string][]Macro{}, Footprints: map[string]map[string][]*Expr{}}
 	var files []string
 	filepath.Walk(repo, func(p string, info os.FileInfo, err error) error {
 		if err != nil {
@@ -1169,6 +1210,13 @@ func loadSpecs(repo, modPath, extDir string) (*SpecDB, error) {
 }
 
 func (db *SpecDB) add(sf *SpecFile, pkg string) {
+	db.Globals = append(db.Globals, sf.Globals...)
+	for n, es := range sf.Footprints {
+		if db.Footprints[pkg] == nil {
+			db.Footprints[pkg] = map[string][]*Expr{}
+		}
+		db.Footprints[pkg][n] = es
+	}
 	db.Macros[pkg] = append(db.Macros[pkg], sf.Macros...)
 	for _, f := range sf.Funcs {
 		k := pkg + "::" + f.Key
